@@ -43,14 +43,15 @@ type schedSpec struct {
 }
 
 type op struct {
-	Op   string     `json:"op"` // sched remove entries start stop adv race ret poll
-	S    *schedSpec `json:"s,omitempty"`
-	ID   int64      `json:"id,omitempty"`
-	To   int64      `json:"to,omitempty"`   // adv / race: absolute clock value
-	N    int        `json:"n,omitempty"`    // ret: how many blocked jobs to release
-	Run  bool       `json:"run,omitempty"`  // start: through Run() in a goroutine
-	Mode string     `json:"mode,omitempty"` // race: apifirst | racy
-	API  *op        `json:"api,omitempty"`  // race: the API call (sched / remove / stop)
+	Op    string     `json:"op"` // sched remove entries start stop adv race ret poll
+	S     *schedSpec `json:"s,omitempty"`
+	ID    int64      `json:"id,omitempty"`
+	To    int64      `json:"to,omitempty"`    // adv / race: absolute clock value
+	N     int        `json:"n,omitempty"`     // ret: how many blocked jobs to release
+	Run   bool       `json:"run,omitempty"`   // start: through Run() in a goroutine
+	Mode  string     `json:"mode,omitempty"`  // race: apifirst | racy | gated
+	Extra int64      `json:"extra,omitempty"` // race/gated: second advance = next timer's instant + extra
+	API   *op        `json:"api,omitempty"`   // race: the API call (sched / remove / stop)
 }
 
 type c05Input struct {
@@ -105,14 +106,14 @@ type runner struct {
 	ctxs    []context.Context
 	ctxDone []bool
 
-	running bool // the harness's own bookkeeping of Start/Stop calls
-	items   []string
-	kinds   []string
-	lastTm  *int64
-	logPos  int
-	jobPos  int
-	retOut  int // JobRet items emitted
-	stopObs []bool
+	running      bool // the harness's own bookkeeping of Start/Stop calls
+	items        []string
+	kinds        []string
+	lastTm       *int64
+	logPos       int
+	jobPos       int
+	retOut       int // JobRet items emitted
+	stopObs      []bool
 	released     int // blocked jobs released by "ret"
 	nStopRunning int // Stop calls made while running
 
@@ -629,7 +630,28 @@ func (r *runner) race(o op) {
 		return
 	}
 	a := *o.API
-	due := r.clk.Advance(o.To, true)
+	if o.Mode == "gated" {
+		// Hold the scheduler inside NewTimer on its way back to the select after the wake-up at
+		// o.To, let the clock reach the new timer's instant (the tick is delivered) and issue the
+		// call; then let it go: both select cases are ready, Go picks.
+		r.clk.ArmGate()
+		if r.clk.Advance(o.To, false) == 0 {
+			r.clk.ReleaseGate()
+			r.emit("Tick", "Tick "+hx.CoqZ(r.clk.Peek()), "ONone", r.newJobs(), r.lastTm)
+			return
+		}
+		parked := waitFor(func() bool { p, _ := r.clk.GateParked(); return p }, liveWait)
+		if !parked {
+			// no timer was armed after the wake-up (no entry has a Next): nothing to race with
+			r.clk.ReleaseGate()
+			r.afterEvent()
+			return
+		}
+		r.collect() // the wake-up at o.To, with its job starts
+		_, dl := r.clk.GateParked()
+		o.To = dl + o.Extra
+	}
+	due := r.clk.Advance(o.To, o.Mode != "gated")
 	w0, _ := r.log.counts()
 	p0 := r.log.len()
 	var tk *token
@@ -652,7 +674,17 @@ func (r *runner) race(o op) {
 	if a.Op == "stop" {
 		r.nStopRunning++
 	}
-	if o.Mode == "racy" {
+	if o.Mode == "gated" {
+		done := make(chan struct{})
+		go func() { rawCall(); close(done) }()
+		// give the call a moment to reach its channel send (affects only how often each order
+		// is seen, never a verdict)
+		time.Sleep(150 * time.Microsecond)
+		r.clk.ReleaseGate()
+		if !r.call("race:"+a.Op, func() { <-done }) {
+			return
+		}
+	} else if o.Mode == "racy" {
 		gate := make(chan struct{})
 		var wg sync.WaitGroup
 		wg.Add(2)
